@@ -212,6 +212,29 @@ def keyf(rec, why):
     return None
 
 
+
+def demo_mutants(recs, verdicts):
+    """Corrupted copies of records judged ok (flip a literal, drop a clause, shift the declared count)."""
+    import copy
+    out = []
+    seen = set()
+    for r in recs:
+        if verdicts.get(r["id"]) != "ok" or r.get("cls") != "CNF" or r["outcome"] != "ok" or "cand" in r:
+            continue
+        if r["fam"] in ("domset", "ramlb") or r["fam"] in seen or len(r.get("clauses", [])) < 2 or not r["clauses"][0] or r["nvars"] > 10:
+            continue
+        seen.add(r["fam"])
+        a = copy.deepcopy(r)
+        a["clauses"][0][0] = -a["clauses"][0][0]
+        out.append(("%s:flip_literal" % r["fam"], a))
+        b = copy.deepcopy(r)
+        b["clauses"] = b["clauses"][1:]
+        out.append(("%s:drop_clause" % r["fam"], b))
+        if len(seen) >= 6:
+            break
+    return out
+
+
 def main(argv=None):
     ck = common.Check("C02", argv)
     common.setup_repo_import()
@@ -226,7 +249,8 @@ def main(argv=None):
     ck.cover["instances_per_family"] = fams
     ck.count("assignments_evaluated",
              sum(2 ** r["nvars"] for r in recs) + sum(len(r.get("cand", [])) for r in big))
-    ck.judge("JudgeFamilies", recs + big, cfg="Judge.cfg", weight=gen.weight, keyf=keyf)
+    verdicts = ck.judge("JudgeFamilies", recs + big, cfg="Judge.cfg", weight=gen.weight, keyf=keyf)
+    ck.binding_demo("JudgeFamilies", demo_mutants(recs, verdicts or {}), cfg="Judge.cfg")
     ck.assumptions += [
         "identifiers are bound to named variables through the formula's variable groups (their own index enumeration)",
         "scope: all labelled graphs with <= 4 vertices (5 sampled), all parameters in the stated ranges, all 2^n assignments; "
